@@ -130,4 +130,15 @@ var c11Benign = []core.Mutant{
 	{Name: "bound-no-next-parent-named-last", File: c11fCompute,
 		Find:    "\t\treturn child[len(child)-1].VersionIndex + 1\n",
 		Replace: "\t\tlast := child[len(child)-1]\n\t\treturn 1 + last.VersionIndex\n"},
+
+	// ---- round 5: the grouping method respelled (decided by finite-domain evaluation)
+	{Name: "groupby-start-end-markers", File: c11fCompute,
+		Find:    "\tvar result []childLocs\n\n\tfor len(locs) > 0 {\n\t\tp := locs[0].Parent\n\t\tend := 0\n\n\t\tfor end < len(locs) && locs[end].Parent == p {\n\t\t\tend++\n\t\t}\n\n\t\tresult = append(result, locs[:end])\n\t\tlocs = locs[end:]\n\t}\n\n\treturn result\n",
+		Replace: "\tvar result []childLocs\n\n\tstart := 0\n\tfor end := 1; end <= len(locs); end++ {\n\t\tif end == len(locs) || locs[end].Parent != locs[start].Parent {\n\t\t\tresult = append(result, locs[start:end])\n\t\t\tstart = end\n\t\t}\n\t}\n\n\treturn result\n"},
+	{Name: "groupby-flush-at-end", File: c11fCompute,
+		Find:    "\tvar result []childLocs\n\n\tfor len(locs) > 0 {\n\t\tp := locs[0].Parent\n\t\tend := 0\n\n\t\tfor end < len(locs) && locs[end].Parent == p {\n\t\t\tend++\n\t\t}\n\n\t\tresult = append(result, locs[:end])\n\t\tlocs = locs[end:]\n\t}\n\n\treturn result\n",
+		Replace: "\tif len(locs) == 0 {\n\t\treturn nil\n\t}\n\n\tvar result []childLocs\n\tstart := 0\n\tfor i := 1; i < len(locs); i++ {\n\t\tif locs[i].Parent != locs[i-1].Parent {\n\t\t\tresult = append(result, locs[start:i])\n\t\t\tstart = i\n\t\t}\n\t}\n\n\treturn append(result, locs[start:])\n"},
+	{Name: "groupby-emit-helper-closure", File: c11fCompute,
+		Find:    "\tvar result []childLocs\n\n\tfor len(locs) > 0 {\n\t\tp := locs[0].Parent\n\t\tend := 0\n\n\t\tfor end < len(locs) && locs[end].Parent == p {\n\t\t\tend++\n\t\t}\n\n\t\tresult = append(result, locs[:end])\n\t\tlocs = locs[end:]\n\t}\n\n\treturn result\n",
+		Replace: "\tvar result []childLocs\n\temit := func(from, to int) int {\n\t\tresult = append(result, locs[from:to])\n\t\treturn to\n\t}\n\n\tstart := 0\n\tfor i := range locs {\n\t\tif i > start && locs[i].Parent != locs[start].Parent {\n\t\t\tstart = emit(start, i)\n\t\t}\n\t}\n\tif start < len(locs) {\n\t\temit(start, len(locs))\n\t}\n\n\treturn result\n"},
 }
